@@ -11,6 +11,8 @@
 (*   a == b              a <= b and b <= a                                 *)
 (*   intersect(a, b)     the non-empty pairwise intersections, a-major     *)
 (*   contains_behavior   some alternative contains the point               *)
+(*   IoContractCompound.merge   assumptions and guarantees intersected     *)
+(*                       (the assumptions must come out disjoint)          *)
 (*                                                                         *)
 (* Laws (TLC, all pairs of lists of <= 2 alternatives): `<=` answering     *)
 (* True is inclusion of the unions (SOUND); intersect is EXACTLY the       *)
@@ -66,5 +68,7 @@ Laws ==
 LeComplete == (Members(A) \subseteq Members(B)) => Le(A, B)                         \* NOT a law: TLC must refute it
 
 Emit == PrintT(<<"CASE", ToJson([a |-> A, b |-> B, le |-> Le(A, B), eq |-> Eq(A, B), meet |-> Intersect(A, B),
-                                  raises |-> ConstructRaises(A, TRUE), members |-> [p2 \in Points2 |-> p2 \in Members(A)]])>>)
+                                  raises |-> ConstructRaises(A, TRUE), members |-> [p2 \in Points2 |-> p2 \in Members(A)],
+                                  \* IoContractCompound.merge of (assumptions A over the input, guarantees B over the output) with (B, A): both sides intersected
+                                  meetBA |-> Intersect(B, A), disjA |-> Disjoint(A), disjB |-> Disjoint(B)])>>)
 =====================================================================
